@@ -499,7 +499,8 @@ def check_under_mode(case, cfg, mode):
                     if abs(data.get(k, 0) - w) > 1e-6:
                         viol.append({"kind": "report-differs-from-pipeline", "detail": {"deviations": labels, "output": "html", "figure": k, "expected": w, "got": data.get(k)}})
                 if exp["views"] is not None:
-                    got_v = {s["title"]: sorted(m["displayName"] for m in s["merchants"].values()) for s in data["sections"].values()}
+                    # a view without members may be listed (empty) or left out: both say "no members"
+                    got_v = {s["title"]: sorted(m["displayName"] for m in s["merchants"].values()) for s in data["sections"].values() if s["merchants"]}
                     want_v = {k: v for k, v in exp["views"].items() if v}
                     if got_v != want_v:
                         viol.append({"kind": "view-membership-differs-from-pipeline", "detail": {"deviations": labels, "output": "html", "expected": want_v, "got": got_v}})
